@@ -33,6 +33,10 @@ CHECKS = {
    text="Real gmsm code runs as tasks under a seeded cooperative scheduler that owns every interleaving at statement (~3800 inserted yield points), lock, once, atomic and network granularity (instrumented scratch copy). Six programs: one shared sm4 cipher.Block; package-level SM2/SM3/SM4/X.509/PKCS#7 operations incl. first use of the curve; LRU session cache; one CertPool; one established connection with concurrent readers, writers and Close; one server Config with simultaneous handshakes, ticket rotation and Clone. Oracles: equality with the same call run alone; porcupine linearizability (cache; connection as FIFO pipe with atomic writes); the Go race detector evaluated on the simulated interleaving - the hand-off baton between tasks is invisible to it, so a report is deterministic per seed; deadlock and panic.",
    note="Sampling of schedules (random gaps and PCT), not enumeration. The race oracle inherits the detector's bounded shadow history (can miss, cannot invent). Statement-level yields only in the files listed in DESIGN 5/C20.",
    technique="deterministic simulation: seeded cooperative scheduler over instrumented real code (statement/lock/atomic preemption), race detector as happens-before oracle under the simulated schedule, porcupine linearizability of recorded histories, ddmin-minimised replayable schedules"),
+ "C08": dict(level="exploration", design="5 (C08), Appendix B",
+   text="Attackers are nodes of the simulation. Impostor family: the independent reference endpoint terminates the connection itself with credentials that lack exactly one thing the property names (trusted chain, validity at the victim's skewed virtual clock, name, SM2 key type, signing key, freshness of the ServerKeyExchange signature, the ServerKeyExchange message itself, the encryption key, CertificateVerify key / transcript / presence) against an honest gmtls client or against an honest gmtls server under each ClientAuth policy - with the expected verdict per item and policy, including the cases that must be accepted. MITM family: a relay between two honest gmtls endpoints rewrites one plaintext handshake message (byte flip, replay from an earlier session of the same run, drop, duplicate, swap, suite stripping, certificate substitution) or only re-fragments; both ends' views are reconstructed from taps and must be identical whenever both complete.",
+   note="Trusts the reftls endpoints (honest items in every batch) and the fixture PKI. Catalogue sampled by seed, not enumerated per field.",
+   technique="deterministic simulation with fault injection: impostor endpoints and a rewriting man-in-the-middle as simulated nodes, per-node clock skew on a virtual clock, cross-session replay within one run; oracle = impostor never completes / no split view; ddmin-minimised replay files"),
  "C15": dict(level="exploration", design="5 (C15), Appendix C",
    text="One real gmtls endpoint (client; server in GMSSL-only, auto-switch and TLS mode) against a scripted, independent GM/T 0024 peer on the simulated network. Scripts are drawn per run from the alphabet of Appendix C: 1-3 wire deviations at drawn message positions (wrong type, duplicate, omission, truncation, rewritten length bytes, inserted application data / ChangeCipherSpec / alerts / unknown records, end of stream before or inside every record, stall with and without a virtual-time deadline), hello-level content (version sweep 0x0000..0x0400 with GM and TLS suites, suite lists, compression, ServerHello selections, certificate lists with non-EC keys) and legal variations that must still complete (fragmentation, coalescing, unknown extensions and suites). The reference peer keeps its honest transcript, so every byte-changing deviation must end in an error on the endpoint.",
    note="Trusts the reftls endpoints (honest scripts in every batch complete against unmodified gmtls in both roles). A TLS-mode server is only exercised up to what a GM scripted client can send (ClientHello-level and record-level junk).",
